@@ -214,6 +214,11 @@ contract(
         "histdoc.__setitem__": Ext(),
         "open": Ext(ret=Opaque("file"), event="open", raises=["OSError"]),
         "xlj.ljdump": Ext(event="ljdump", raises=["OSError", "ValueError"]),
+        "os.path.dirname": Ext(ret=Str, pure=True),
+        "tempfile.mkstemp": Ext(ret=Tuple(Int, Str), event="mkstemp", raises=["OSError"]),
+        "os.fdopen": Ext(ret=Opaque("file"), event="fdopen", raises=["OSError"]),
+        "os.replace": Ext(event="replace", raises=["OSError"]),
+        "os.unlink": Ext(event="unlink", raises=["OSError"]),
         "lj.sizes": Ext(ret=Opaque("sizes"), pure=True, attr=True),
         'sizes.__getitem__("cmds")': Ext(ret=Seq(Int), pure=True, raises=["KeyError"]),
         "live": LIVE,
